@@ -286,7 +286,12 @@ func genOp(t *rapid.T, kinds []string, hp *HistoryParams, depth int, flat bool) 
 		k = rapid.SampledFrom(kinds).Draw(t, "op")
 	}
 	op := Op{K: k}
+	if k == "restart" && hp.Lag && rapid.IntRange(0, 2).Draw(t, "staleRestart") == 0 {
+		k, op.K = "restartstale", "restartstale"
+	}
 	switch k {
+	case "restartstale":
+		op.A = rapid.IntRange(0, 7).Draw(t, "staleBack")
 	case "resync", "syncips", "deliver", "drop", "restart", "quiesce", "fipevent":
 	case "episode":
 		n := rapid.IntRange(2, 3).Draw(t, "nSub")
@@ -442,7 +447,7 @@ func GenHistory(t *rapid.T, hp *HistoryParams) Case {
 		}
 		maxKind := 8
 		if hp.Episodes {
-			maxKind = 18
+			maxKind = 19
 		}
 		sched := func() []int { return GenSchedule(t) }
 		var pk int
@@ -455,10 +460,21 @@ func GenHistory(t *rapid.T, hp *HistoryParams) Case {
 			pk = 16
 		}
 		switch pk {
+		case 19: // a pod is replaced and its successor bound; then the daemon restarts (leader change) with a pod cache served from a
+			// lagging watch cache - it shows the OLD incarnation again while the store says the new one owns the IP - and resync and an
+			// API release decide on that basis
+			if !hp.Lag {
+				c.Ops = append(c.Ops, ab("recreate"), ab("sched"))
+				break
+			}
+			victim := rapid.IntRange(0, 7).Draw(t, "victim19")
+			c.Ops = append(c.Ops, Op{K: "phase", A: victim, B: 0}, Op{K: "recreate", A: victim}, Op{K: "synclister", A: 2}, Op{K: "deliver"}, Op{K: "deliver"},
+				Op{K: "deliver"}, ab("unbind"), ab("sched"), Op{K: "synclister", A: 2},
+				Op{K: "restartstale", A: rapid.IntRange(2, 4).Draw(t, "back19")}, Op{K: "resync"}, ab("apireleasable"), Op{K: "resync"})
 		case 18: // a pod is retired and its reservation handled; an administrator's release request is under way (it has checked that
 			// no such pod runs) while the controller creates the next incarnation and the scheduler binds it
 			var s18 []int
-			for i, k := 0, 1+uniformInt(t, 14, "releasePrefix"); i < k; i++ {
+			for i, k := 0, 1+uniformInt(t, 16, "releasePrefix"); i < k; i++ {
 				s18 = append(s18, 0)
 			}
 			for i := 0; i < 80; i++ {
